@@ -92,6 +92,15 @@ pub fn run(tier: Tier, replay_file: Option<&str>) -> i32 {
             pols.push((cnd.pol.clone(), p));
         }
     }
+    // + every hand-written / compositional policy of the C14 family (ids not starting with `p`), unthinned
+    for (ps, _) in c14::policy_sets(Tier::Quick, &schema) {
+        if ps.len() == 1 && !ps[0].id.starts_with('p') {
+            let text = ps[0].text(&st);
+            if let Ok(p) = cedar_policy::Policy::parse(Some(cedar_policy::PolicyId::new(&ps[0].id)), &text) {
+                pols.push((ps[0].clone(), p));
+            }
+        }
+    }
     ctx.set_info("policies", json!(pols.len()));
     // environments
     // the C14 store family (all referenced entities usually present) + a cut of the W stores
